@@ -84,6 +84,9 @@ class Machine(object):
             ck = n.get('ck')
             if ck == 'LValueToRValue':
                 return self.rv(n['ch'][0])
+            if ck in ('PointerToBoolean', 'NullToPointer'):
+                v = self.rv(n['ch'][0]) if ck == 'PointerToBoolean' else 0
+                return 1 if v else 0
             if ck == 'ToVoid':
                 self.ev(n['ch'][0])
                 return None
